@@ -64,6 +64,9 @@ pub struct CtorCase {
     pub x: f64,
     pub chunk: usize,
     pub channels: usize,
+    /// sinc types: through `new_with_interpolator` (with a scalar kernel) instead of `new`
+    #[serde(default)]
+    pub with_interp: bool,
 }
 
 #[derive(Clone, Debug, Serialize, Deserialize)]
@@ -318,6 +321,15 @@ fn ctor_err<T: SampleX>(c: &CtorCase) -> Result<(), ResamplerConstructionError> 
         _ => (1.25, 1.5, 0, 0),
     };
     let p = || Config::default().sinc_params();
+    if c.with_interp && c.kind.is_sinc() {
+        let k = Box::new(rubato::sinc_interpolator::ScalarInterpolator::<T>::new(64, 16, 0.9, rubato::WindowFunction::Blackman2));
+        let it = rubato::SincInterpolationType::Cubic;
+        return if c.kind == Kind::SincIn {
+            SincFixedIn::<T>::new_with_interpolator(ratio, max_rel, it, k, c.chunk, c.channels).map(|_| ())
+        } else {
+            SincFixedOut::<T>::new_with_interpolator(ratio, max_rel, it, k, c.chunk, c.channels).map(|_| ())
+        };
+    }
     match c.kind {
         Kind::FastIn => FastFixedIn::<T>::new(ratio, max_rel, rubato::PolynomialDegree::Cubic, c.chunk, c.channels).map(|_| ()),
         Kind::FastOut => FastFixedOut::<T>::new(ratio, max_rel, rubato::PolynomialDegree::Cubic, c.chunk, c.channels).map(|_| ()),
@@ -340,7 +352,7 @@ fn run_ctor(c: &CtorCase) -> Outcome {
     if !is_async && cc.which < 4 {
         cc.which = 4 + cc.which % 3;
     }
-    o.class(format!("ctor:{}:{}", cc.kind.name(), cc.which));
+    o.class(format!("ctor:{}:{}{}", cc.kind.name(), cc.which, if cc.with_interp && cc.kind.is_sinc() { ":new_with_interpolator" } else { "" }));
     let r = if cc.f32 { ctor_err::<f32>(&cc) } else { ctor_err::<f64>(&cc) };
     let ok = match (&r, cc.which) {
         (Err(ResamplerConstructionError::InvalidRatio(_)), 0..=2) => true,
@@ -351,7 +363,7 @@ fn run_ctor(c: &CtorCase) -> Outcome {
         _ => false,
     };
     if !ok {
-        o.fail(format!("ctor:{}:{}", cc.kind.name(), cc.which), format!("constructor with invalid argument class {} returned {:?}", cc.which, r.as_ref().err().map(|e| e.to_string())));
+        o.fail(format!("ctor:{}:{}{}", cc.kind.name(), cc.which, if cc.with_interp && cc.kind.is_sinc() { ":new_with_interpolator" } else { "" }), format!("constructor with invalid argument class {} returned {:?}", cc.which, r.as_ref().err().map(|e| e.to_string())));
     }
     o.nontrivial = true;
     o
@@ -363,7 +375,7 @@ impl Property for C13 {
         "C13"
     }
     fn rule(&self) -> String {
-        "cases = valid prefix history, one malformed call (wrong input/output channel count 0/n-1/n+1/2n, an active input/output channel short by 1 .. empty, mask too short/long; 20 % with two faults) through process_into_buffer / process / process_partial_into_buffer, then a suffix executed on the instance and on a twin that never saw the malformed call; plus invalid constructor arguments for all seven constructors. non-trivial = malformed call placed after >= 1 valid processing call and followed by >= 1 compared processing call (constructor cases: always). distinct = distinct case JSON digest.".into()
+        "cases = valid prefix history, one malformed call (wrong input/output channel count 0/n-1/n+1/2n, an active input/output channel short by 1 .. empty, mask too short/long; 20 % with two faults) through process_into_buffer / process / process_partial_into_buffer, then a suffix executed on the instance and on a twin that never saw the malformed call; plus invalid constructor arguments for all seven constructors and the two `new_with_interpolator` constructors. non-trivial = malformed call placed after >= 1 valid processing call and followed by >= 1 compared processing call (constructor cases: always). distinct = distinct case JSON digest.".into()
     }
     fn assumptions(&self) -> Vec<String> {
         vec![
@@ -393,8 +405,8 @@ impl Property for C13 {
                 }
                 Case::Call(CallCase { cfg, seed, prefix, faults, path, mask, suffix })
             });
-        let ctor = ((0usize..7).prop_map(|i| ALL_KINDS[i]), any::<bool>(), 0u8..7, prop_oneof![Just(1.0f64), 1e-300f64..1e300], 1usize..512, 1usize..4)
-            .prop_map(|(kind, f32, which, x, chunk, channels)| Case::Ctor(CtorCase { kind, f32, which, x, chunk, channels }));
+        let ctor = ((0usize..7).prop_map(|i| ALL_KINDS[i]), any::<bool>(), 0u8..7, prop_oneof![Just(1.0f64), 1e-300f64..1e300], 1usize..512, 1usize..4, any::<bool>())
+            .prop_map(|(kind, f32, which, x, chunk, channels, with_interp)| Case::Ctor(CtorCase { kind, f32, which, x, chunk, channels, with_interp }));
         prop_oneof![12 => call, 1 => ctor].boxed()
     }
     fn cases(&self, tier: Tier) -> u32 {
@@ -409,7 +421,10 @@ impl Property for C13 {
         for kind in ALL_KINDS {
             for which in 0..7u8 {
                 for f32 in [false, true] {
-                    v.push(Case::Ctor(CtorCase { kind, f32, which, x: 2.5, chunk: 64, channels: 2 }));
+                    v.push(Case::Ctor(CtorCase { kind, f32, which, x: 2.5, chunk: 64, channels: 2, with_interp: false }));
+                    if kind.is_sinc() {
+                        v.push(Case::Ctor(CtorCase { kind, f32, which, x: 2.5, chunk: 64, channels: 2, with_interp: true }));
+                    }
                 }
             }
         }
